@@ -74,9 +74,8 @@ def size_programs(quick=True):
         add("function-nesting", n, "".join(f"Fun{'x' * i} takes X\n" for i in range(min(n, 40))) + "give back X\n" + "\n" * min(n, 40) + "say 1\n")
         add("else-chain", n, f"X is {n}\n" + "".join(f"if X is {i}\nsay {i}\nelse\n" for i in range(min(n, 60))) + "say \"none\"\n" + "\n" * min(n, 60) + "say 2\n")
     if not quick:
+        # (single tokens longer than ~10^4 characters are left out: the model's word scanner is super-linear in the token length)
         for n in HUGE:
             add("string-length", n, f"put \"{'a' * n}\" into X\nsay X\ncut X into Y\nsay Y at {n - 1}\n")
-            add("name-length", n, f"let {'x' * n} be 5\nsay {'X' * n}\n")
             add("input-line-length", n, "listen to X\nlisten to Y\nsay Y\nsay X is Y\n", "b" * n + "\nsecond\n")
-            add("poetic-word-length", n, f"X is {'a' * n} bb\nsay X\n")
     return out
